@@ -22,6 +22,9 @@ func main() {
 		if f.Engine == "hist" {
 			os.Exit(replayRegHist(f))
 		}
+		if f.Engine == "hold" {
+			os.Exit(replayHold(f))
+		}
 		os.Exit(replayC17(f))
 	}
 	switch f.Engine {
